@@ -177,8 +177,11 @@ def validate_chunk(work, chunk, invs, mods, flags, name, module="RelayTrace", cf
             break
         fr = failing_record(r, lines[offset:])
         fr["chunk"] = chunk
+        fr["start"] += offset      # absolute positions in the chunk file
+        nxt = offset + fr["end"]
+        fr["end"] = nxt
         fails.append(fr)
-        offset += fr["end"]
+        offset = nxt
     return fails
 
 
@@ -376,7 +379,10 @@ def run_relay_check(work, prop, tier, replay=None):
         for fr in conc["fails"]:
             fails.append(fr)
             if fr.get("scenario"):
-                hist_by_id[fr["hid"]] = dict(fr["scenario"], hid=fr["hid"], failing_outcome=fr["rec"])
+                sc2 = dict(fr["scenario"], hid=fr["hid"], failing_record=fr["rec"], block=fr.get("block"))
+                if fr.get("block") and fr["block"].get("choices"):
+                    sc2["sched"] = [fr["block"]["choices"]]      # replaying runs exactly this schedule
+                hist_by_id[fr["hid"]] = sc2
     if prop == "C02" and not replay:
         # wire level: relays to a recipient whose connection is backed up must still arrive exactly once, in order
         l2f = l2_backpressure(work, tier)
@@ -456,8 +462,12 @@ def run_relay_check(work, prop, tier, replay=None):
     ]
     write_evidence(work, "model_checking", coverage, assumptions, violations=len(violations))
 
+    printed = set()
     for kf, fr in known:
-        print("KNOWN-FINDING: property=%s %s" % (prop, kf.get("what", kf.get("id"))))
+        if kf["id"] in printed:
+            continue
+        printed.add(kf["id"])
+        print("KNOWN-FINDING: property=%s %s: %s" % (prop, kf["id"], kf.get("what", "")))
     if spec_violation and not violations:
         # a counterexample on the specification alone is a lead, not a verdict
         raise Inconclusive("TLC refutes %s on the specification (family %s) but no recorded execution of the code shows it: "
